@@ -554,6 +554,22 @@ class Pass2(CompilePass):
                 EC.INVALID_CONSTANT,
                 node=node.value)
 
+        # the value of a constant is computed by the compiler; an
+        # expression that cannot be evaluated is an error here and
+        # not an exception later in the code generator
+        try:
+            node.value.eval()
+        except OverflowError:
+            raise CompileError(
+                EC.INVALID_CONSTANT,
+                'Overflow in constant expression',
+                node=node.value)
+        except ZeroDivisionError:
+            raise CompileError(
+                EC.INVALID_CONSTANT,
+                'Division by zero in constant expression',
+                node=node.value)
+
         if node.parent_routine == self.compilation.main_routine:
             if node.name in self.compilation.global_consts:
                 raise CompileError(
